@@ -5,11 +5,68 @@
 package main
 
 import (
+	"encoding/json"
+	"fmt"
+	"os"
+	"os/exec"
+	"path/filepath"
 	"strings"
 	"time"
 
 	"verif/mc/explore"
+	"verif/mc/report"
 )
+
+// seamPass builds harness/c08/seambin against the current tree (hooks, no clock rewrite) and runs
+// the real Thread.Run() loop through each schedule of the reaper-timer seam: signal due while the
+// thread is idle, and while it is held busy starting before the 1st, 2nd and 3rd signal.
+func seamPass(rep *report.Reporter, cov report.Coverage) {
+	b := os.Getenv("VERIF_BUILD_DIR")
+	repo := os.Getenv("VERIF_REPO_DIR")
+	root := report.Root()
+	ov := filepath.Join(b, "ov-seam")
+	os.RemoveAll(ov)
+	if out, err := exec.Command(filepath.Join(b, "xform"), "-repo", repo, "-out", ov, "-hooks", filepath.Join(root, "hooks")).CombinedOutput(); err != nil {
+		report.Fatal("seam pass: xform failed: %v %s", err, out)
+	}
+	args := []string{"build", "-tags", "verif", "-overlay", filepath.Join(ov, "overlay.json"), "-o", filepath.Join(b, "seambin")}
+	if mf := filepath.Join(b, "alt.mod"); fileExists(mf) {
+		args = append(args, "-modfile="+mf)
+	}
+	args = append(args, "./harness/c08/seambin")
+	cmd := exec.Command("go", args...)
+	cmd.Dir = root
+	if out, err := cmd.CombinedOutput(); err != nil {
+		report.Fatal("seam pass: build failed: %v %s", err, out)
+	}
+	type res struct {
+		Drained bool  `json:"drained"`
+		Waited  int64 `json:"waited_ms"`
+		Pit     int   `json:"pit"`
+		Held    bool  `json:"held"`
+	}
+	var runs []map[string]any
+	for _, busyAt := range []int{-1, 10, 150, 250} {
+		out, err := exec.Command(filepath.Join(b, "seambin"), fmt.Sprint(busyAt)).Output()
+		var r res
+		if err != nil || json.Unmarshal(out, &r) != nil {
+			report.Fatal("seam pass: run busyAt=%d failed: %v %s", busyAt, err, out)
+		}
+		sched := "reaper signals fall due while the thread is idle"
+		if busyAt >= 0 {
+			sched = fmt.Sprintf("thread held busy for 1 s from %d ms (reaper signal falls due meanwhile)", busyAt)
+		}
+		runs = append(runs, map[string]any{"schedule": sched, "drained": r.Drained, "waited_ms": r.Waited, "thread_was_held": r.Held})
+		if !r.Drained {
+			rep.Add(report.Violation{Clause: "C08.pit", Key: "PIT never drains on the real Run() loop when the reaper signal falls due while the thread is busy",
+				Detail: fmt.Sprintf("real Thread.Run() loop, Interests with 200 ms lifetime, %s: %d PIT entries remain 45 s later", sched, r.Pit),
+				Replay: map[string]any{"mode": "seam", "busy_at_ms": busyAt}})
+		}
+	}
+	cov["timer_seam_pass"] = map[string]any{"runs": runs, "note": "free-running real-time pass over the 4 schedules of the reaper-timer seam (timer goroutine -> channel -> Run() select); passes as soon as the PIT is empty, fails only after 45 s"}
+}
+
+func fileExists(p string) bool { _, err := os.Stat(p); return err == nil }
 
 func build(cfg string) explore.System {
 	if strings.HasPrefix(cfg, "pit") {
@@ -18,9 +75,46 @@ func build(cfg string) explore.System {
 	return buildTables(cfg)
 }
 
+// replaySeam re-runs one schedule of the timer-seam pass from a replay file (mode "seam").
+func replaySeam(path string) (handled bool, code int) {
+	b, err := os.ReadFile(path)
+	if err != nil {
+		return false, 0
+	}
+	var f struct {
+		Replay struct {
+			Mode   string `json:"mode"`
+			BusyAt int    `json:"busy_at_ms"`
+		} `json:"replay"`
+	}
+	if json.Unmarshal(b, &f) != nil || f.Replay.Mode != "seam" {
+		return false, 0
+	}
+	rep := report.New("C08", "model_checking")
+	cov := report.Coverage{}
+	seamPass(rep, cov)
+	for _, r := range cov["timer_seam_pass"].(map[string]any)["runs"].([]map[string]any) {
+		fmt.Printf("replayed: %v drained=%v\n", r["schedule"], r["drained"])
+		if r["drained"] == false {
+			code = 1
+		}
+	}
+	if code == 1 {
+		fmt.Printf("VIOLATION property=C08 replay=%s\n", path)
+	} else {
+		fmt.Println("replay: violation not reproduced")
+	}
+	return true, code
+}
+
 func main() {
+	if len(os.Args) >= 3 && os.Args[1] == "--replay" {
+		if ok, code := replaySeam(os.Args[2]); ok {
+			os.Exit(code)
+		}
+	}
 	explore.Main(explore.Spec{
-		ID: "C08", PanicClause: "C08.panic", Build: build,
+		ID: "C08", PanicClause: "C08.panic", Build: build, Extra: seamPass,
 		Configs: func(th bool) []explore.Config {
 			d := map[string]int{"fib": 4, "rib": 3, "cs": 6}
 			if th {
